@@ -40,7 +40,7 @@ RULE = ('directed corpus (every whole-minute offset -23:59..+23:59, sub-minute o
         'TimeFixture). One monitored execution = one call of a function under test with its oracle; distinct by '
         '(kind, fields, tz spec, form, seconds, delta, function, via); all are non-trivial except normalize_time/'
         'parse_isotime/marshalling of a naive value with zero microseconds')
-REQUIRED_CLAUSES = ['under-warnings-as-errors', 'override-utcnow-with_timezone', 'process-timezone-not-utc', 'comparison-keyword-call', 'normalize-naive-unchanged', 'normalize-aware-exact', 'normalize-unrepresentable',
+REQUIRED_CLAUSES = ['comparison-with-huge-seconds', 'under-warnings-as-errors', 'override-utcnow-with_timezone', 'process-timezone-not-utc', 'comparison-keyword-call', 'normalize-naive-unchanged', 'normalize-aware-exact', 'normalize-unrepresentable',
                     'normalize-range-edge-representable',
                     'parse-isotime-inverts-isoformat', 'marshall-roundtrip', 'marshall-now-under-override',
                     'leap-second-capped', 'override-utcnow', 'override-utcnow_ts',
@@ -596,7 +596,30 @@ def eval_cmp(ctx, case):
                           'got': got, 'want': want, 'exc': exc, 'via': via})
 
 
-EVAL = {'norm': eval_norm, 'iso': eval_iso, 'marshal': eval_marshal, 'leapdict': eval_leapdict,
+def eval_cmp_huge(ctx, case):
+    """Second counts far larger than any distance between two datetimes (but well inside timedelta's range): the
+    comparison is decided all the same - t - now can never exceed them (or is always above a hugely negative one)."""
+    from oslo_utils import timeutils as tu
+    now_f, t_f, s = case['now'], case['t'], case['seconds']
+    t = dt.datetime(*t_f)
+    clock = Clock(ctx, case, case['via'], now_f)
+    if not clock.start():
+        return
+    try:
+        dist_us = wall_us(t_f) - wall_us(now_f)
+        for fn in ('older', 'newer'):
+            want = (-dist_us > exact_us(s)) if fn == 'older' else (dist_us > exact_us(s))
+            got, exc = _call(getattr(tu, FUNCS[fn]), t if case['form'] == 'dt' else t.isoformat(), s)
+            ctx.case(('cmp-huge', fn, tuple(now_f), tuple(t_f), s, case['form']))
+            ctx.clause('comparison-with-huge-seconds')
+            if exc is not None or got is not want:
+                ctx.fail('comparison-with-huge-seconds', case,
+                         {'function': FUNCS[fn], 'seconds': s, 'now': now_f, 't': t_f, 'got': got, 'want': want, 'exc': exc})
+    finally:
+        clock.stop()
+
+
+EVAL = {'cmp-huge': eval_cmp_huge, 'norm': eval_norm, 'iso': eval_iso, 'marshal': eval_marshal, 'leapdict': eval_leapdict,
         'clock': eval_clock, 'cmp': eval_cmp}
 
 
@@ -783,6 +806,11 @@ def run(ctx):
         emit({'kind': 'cmp', 't': rand_fields(rd), 'tz': spec, 'form': rd.choice(['dt', 'iso']),
               'seconds': rand_seconds(rd), 'deltas': [-1, 0, 1], 'fns': allf, 'via': VIAS[m % 3]})
     ctx.exhaustive['fixed whole-minute offsets -23:59..+23:59 (normalize_time, parse_isotime, comparisons)'] = True
+    for now_f in ([2024, 5, 17, 12, 0, 0, 0], [9999, 12, 31, 23, 59, 30, 0], [1, 1, 1, 0, 0, 30, 0]):
+        for t_f in ([2030, 1, 1, 0, 0, 0, 0], [1, 1, 2, 0, 0, 0, 0], [9999, 12, 31, 23, 59, 59, 999999]):
+            for sec in (60, -60, 2.6e11, 3.2e11, 1e12, -6.4e10, -3.2e11, -1e12, 8.0e13, 10 ** 12, -10 ** 12):
+                emit({'kind': 'cmp-huge', 'now': now_f, 't': t_f, 'seconds': sec, 'form': rd.choice(['dt', 'iso']),
+                      'via': VIAS[(len(str(sec)) + t_f[0]) % 3]})
     for us in SUBMINUTE:
         spec = {'k': 'fixed', 'us': us}
         for f in ([2020, 2, 29, 0, 0, 0, 0], [1999, 12, 31, 23, 59, 59, 999999], [2024, 3, 1, 0, 0, 0, 1]):
